@@ -18,6 +18,7 @@ pub mod c02;
 pub mod c04;
 pub mod c07;
 pub mod c08;
+pub mod c09;
 pub mod c12;
 
 pub fn all() -> Vec<Prop> {
@@ -30,6 +31,8 @@ pub fn all() -> Vec<Prop> {
         c04::prop_c06(),
         c07::prop(),
         c08::prop_c08(),
+        c09::prop_c09(),
+        c09::prop_c10(),
         c12::prop_c12(),
         c08::prop_c13(),
         c08::prop_c14(),
